@@ -256,6 +256,16 @@ def _c09(seed, max_size, n_random, depth):
             r = check_one(t, p, size <= 3)
             if r: return ('fail', r, str(p), done)
             done += 1
+    # conjunctions of k clauses that are ALL trivially true (the branch of start_resolution_algorithm that folds per-clause proofs), in non-palindromic order
+    lem = lambda v: _or(v, neg(v))
+    triv = [lem(MetaVar(0)), lem(MetaVar(1)), lem(MetaVar(2)), _or(neg(MetaVar(0)), MetaVar(0)), _or(MetaVar(3), _or(neg(MetaVar(3)), MetaVar(1))), lem(MetaVar(3))]
+    for k in range(1, 7):
+        c = triv[k - 1]
+        for x in reversed(triv[:k - 1]): c = _and(x, c)
+        for p in ((c, neg(c)) if k <= 3 else (neg(c),)):          # the clauses of ~~c are the k trivial clauses: prove_tautology(~c) takes the all-trivial branch
+            r = check_one(t, p, False)
+            if r: return ('fail', r, str(p), done)
+            done += 1
     rng = random.Random(seed)
     for i in range(n_random):
         p = rnd(rng, depth) if i % 3 else cnf(rng)
